@@ -43,6 +43,21 @@ def _case(rng):
 
 def cases(ctx):
     out = [_case(ctx.rng) for _ in range(300 if ctx.tier == 'quick' else 4000)]
+    # boundary: two live Sampler objects taking turns (A, B, A) and (A, B, A, B), direct runs and crops, both engines
+    rng = ctx.rng
+    def run(kind):
+        n = rng.randint(1, 4)
+        return ({'op': 'sample', 'n': n, 'shuffle': 0, 'override': False} if kind == 's'
+                else {'op': 'crop', 'n': n, 'bs': rng.randint(1, n + 1), 'shuffle': 0})
+    for engine in ('pickle', 'csv'):
+        for pat in ('sss', 'scs', 'csc', 'ssss', 'ccc'):
+            c = _case(rng); c['engine'] = engine
+            ops = []
+            for i, k in enumerate(pat):
+                if i: ops.append({'op': 'switch'})
+                ops.append(run(k))
+            c['ops'] = ops
+            out.append(c)
     for c in out:
         ctx.count('engine', c['engine']); ctx.count('runs', len([o for o in c['ops'] if o['op'] not in ('new', 'switch')]))
         for o in c['ops']: ctx.count('op', o['op'])
